@@ -1140,7 +1140,7 @@ fn case_json(case: &Case, o: &Outcome) -> serde_json::Value {
 /// Which implementation the model mirrors: `false` = /repo HEAD, `true` = notes/C05-fixes/01 (a FAILED target is
 /// answered in the first answer of `query_and_await`). FLIP THE DEFAULT when the patch lands;
 /// `QVERIF_SELECT_WAITS=0|1` overrides it (to run the check against a worktree that has the patch).
-const SELECT_WAITS_DEFAULT: bool = false;
+const SELECT_WAITS_DEFAULT: bool = true;
 
 fn select_waits() -> bool {
     match std::env::var("QVERIF_SELECT_WAITS").ok().as_deref() {
